@@ -89,4 +89,13 @@ CHECKS = {
             dict(name="TestC05Clean", quick=dict(checks=250, shards=8, timeout=900), thorough=dict(checks=2500, shards=12, timeout=3000)),
             dict(name="TestC05Wide", quick=dict(checks=250, shards=8, timeout=900), thorough=dict(checks=2500, shards=4, timeout=3000)),
         ]),
+    "C10": dict(
+        pkg="c10", level="exploration",
+        technique="property-based testing (rapid) with a crash oracle: generated command sequences written to real server/health handlers hosted in a crash-isolated worker process with a liveness probe and a bystander session; native fuzzing of the same entry in the thorough tier",
+        level_text="Structured generators (command word x options x arguments x regex x query, plus raw garbage and broken envelopes) drive Handler.Write of the real server and health handlers in a child process whose address space is capped; a recovered panic, the death of the worker or a bystander session that no longer gets its file is a violation, attributed to a single case by replay in a fresh worker.",
+        level_note="'Authenticated client' = anything that reaches Handler.Write. Huge files are outside the domain; a single command that makes the server allocate gigabytes is inside (6 GB cap). Panics that only fire after the 5 s retry sleeps are caught by a late probe and attributed to a window of cases.",
+        tests=[
+            dict(name="TestC10Attack", quick=dict(checks=600, shards=6, timeout=900), thorough=dict(checks=12000, shards=12, timeout=3400)),
+            dict(name="FuzzC10", quick=dict(skip=True), thorough=dict(fuzz="300s", timeout=700, procs=16)),
+        ]),
 }
